@@ -4,7 +4,7 @@
 //
 // Stages (in the order systemd applies them to ExecStart=):
 //   1. the line is split into words at unquoted whitespace; quotes are removed; C-style escapes are decoded
-//      (\a \b \f \n \r \t \v \\ \" \' \s \xXX \uXXXX; \nnn octal and \UXXXXXXXX are documented too but are treated as
+//      (\a \b \f \n \r \t \v \\ \" \' \s \xXX (one raw byte, accepted below 0x80 only) \uXXXX (a code point, UTF-8 encoded); \nnn octal and \UXXXXXXXX are documented too but are treated as
 //      "not accepted" here, which only makes the oracle stricter);  a word that is a lone unquoted `;` separates commands;
 //   2. in every word `%%` becomes `%`; any other `%x` is a specifier (expanded to something else);
 //   3. in every word `$$` becomes `$`; any other `$` starts a variable reference.
@@ -56,7 +56,9 @@ pub open spec fn tok(s: Seq<char>, i: int) -> (Tok, int)
       else if d == '"' { (Tok::Lit('"' as int), i + 2) }
       else if d == '\'' { (Tok::Lit('\'' as int), i + 2) }
       else if d == 'x' {
-        match hexrun(s, i + 2, 2) { Some(v) => if v == 0 { (Tok::Bad, i + 4) } else { (Tok::Lit(v), i + 4) }, None => (Tok::Bad, i + 2) }
+        // \xHH denotes ONE RAW BYTE (systemd's cunescape marks it "eight bit" and does not UTF-8-encode it): for HH >= 0x80 that byte
+        // is not a character by itself, so no character is read back byte for byte -> not accepted here
+        match hexrun(s, i + 2, 2) { Some(v) => if v == 0 || v >= 128 { (Tok::Bad, i + 4) } else { (Tok::Lit(v), i + 4) }, None => (Tok::Bad, i + 2) }
       }
       else if d == 'u' {
         match hexrun(s, i + 2, 4) { Some(v) => if !valid_scalar(v) { (Tok::Bad, i + 6) } else { (Tok::Lit(v), i + 6) }, None => (Tok::Bad, i + 2) }
@@ -465,7 +467,7 @@ pub fn tok_exec(s: &Vec<char>, i: usize) -> (r: (TokE, usize))
       else if d == '"' { (TokE::Lit('"' as u32), i + 2) }
       else if d == '\'' { (TokE::Lit('\'' as u32), i + 2) }
       else if d == 'x' {
-        match hexrun_exec(s, i + 2, 2) { Some(v) => if v == 0 { (TokE::Bad, i + 4) } else { (TokE::Lit(v), i + 4) }, None => (TokE::Bad, i + 2) }
+        match hexrun_exec(s, i + 2, 2) { Some(v) => if v == 0 || v >= 128 { (TokE::Bad, i + 4) } else { (TokE::Lit(v), i + 4) }, None => (TokE::Bad, i + 2) }
       }
       else if d == 'u' {
         match hexrun_exec(s, i + 2, 4) {
